@@ -144,7 +144,7 @@ class Library:
                     except ValueError as e:
                         it.raise_('ValueError', str(e))
                 return self.str_to_int(x, base)
-            if isinstance(x, bool) or isinstance(x, int):
+            if isinstance(x, bool) or isinstance(x, (int, float)):
                 return int(x)
             if isinstance(x, str):
                 try:
@@ -730,6 +730,9 @@ class Library:
                 return N(strm)
         if isinstance(v, Sym) and v.is_str():
             return self.symstr_method(v, name)
+        if isinstance(v, float):
+            if name == 'is_integer':
+                return N(lambda: v.is_integer())
         if isinstance(v, int) and not isinstance(v, bool):
             if name == 'bit_length':
                 return N(lambda: v.bit_length())
